@@ -11,7 +11,7 @@ from ..e1 import *
 from ..logic import const_of, guard_facts, cmp_norm
 from ..report import Obl, Rule
 from .. import build
-from .wopn_common import run_e1, VERSION_REPS
+from .wopn_common import run_e1, VERSION_REPS, role_param
 
 PROP = 'C15'
 RULES = [
@@ -54,7 +54,7 @@ def eval_size_fn(facts, name, version):
     eng = Engine(facts, 'count')
     eng.setup(fn, -1, count_id=-2)
     s0 = State(Poly.const(0))
-    vp = [p for p in fn.params if p['n'] == 'version']
+    vp = [role_param(fn, 'version')] if role_param(fn, 'version') else []
     if not vp:
         raise build.AnalysisBroken('%s has no version parameter' % name)
     s0.env[('v', vp[0]['id'])] = Poly.const(version)
@@ -155,11 +155,10 @@ def extract_layout(facts, fname, version, hsd):
                         table.setdefault(fp, set()).add((od.cval(), n.cval() if n is not None and n.is_const() else '?', 'bytes'))
     eng.on_expr = on_expr
     s0 = State(Poly.const(INF))
-    for p in fn.params:
-        if p['n'] == 'version':
-            s0.env[('v', p['id'])] = Poly.const(version)
-        if p['n'] == 'has_sounding_delays':
-            s0.env[('v', p['id'])] = Poly.const(hsd)
+    for role_, val_ in (('version', version), ('has_sounding_delays', hsd)):
+        p = role_param(fn, role_)
+        if p is not None:
+            s0.env[('v', p['id'])] = Poly.const(val_)
     eng.run_body(fn.tree, s0)
     return table, fn
 
@@ -244,8 +243,8 @@ def analyse(facts, tier):
         o, eng = run_e1(facts, name, 'C15.R1', forks_entry=fe)
         obls += o
         engs[name] = eng
-    lo, leng = run_e1(facts, 'WOPN_LoadBankFromMem', 'C15.R1x', forks_assign={'version': [0, 1, 2, 3]})
-    li, lieng = run_e1(facts, 'WOPN_LoadInstFromMem', 'C15.R1x', forks_assign={'version': [0, 1, 2, 3]})
+    lo, leng = run_e1(facts, 'WOPN_LoadBankFromMem', 'C15.R1x', forks_assign={'@version': [0, 1, 2, 3]})
+    li, lieng = run_e1(facts, 'WOPN_LoadInstFromMem', 'C15.R1x', forks_assign={'@version': [0, 1, 2, 3]})
 
     # ---- R2 sizes
     ok_ret = lambda e: e is not None and const_of(e) == 0          # WOPN_ERR_OK == 0
@@ -295,8 +294,11 @@ def analyse(facts, tier):
             continue
         w = wb.get(wkey)
         syms = sorted(cons.symbols(), key=lambda s: int(s.split('#')[-1]) if '#' in s else 0)
-        wsyms = ['file->banks_count_melodic', 'file->banks_count_percussion']
+        # the writer's counts are fields of its file parameter: named by the field, whatever the parameter is called
+        wsyms = ['banks_count_melodic', 'banks_count_percussion']
         lp = rename(cons, dict(zip(syms, wsyms)))
+        if w is not None:
+            w = rename(w, {s_: s_.split('->')[-1].split('.')[-1] for s_ in w.symbols()})
         ok = w is not None and lp == w
         obls.append(Obl('C15.R2', 'WOPN_LoadBankFromMem', 'consumed == written, version %s' % (wv if wv is not None else '1 (old magic)'), facts.fn('WOPN_LoadBankFromMem').loc,
                         'discharged' if ok else 'finding', why='loader consumes %s, writer writes %s' % (lp, w)))
